@@ -326,8 +326,42 @@ class Resolver:
     def _is_property(fi: FuncInfo) -> bool:
         return any(d.split(".")[-1] in ("property", "cached_property", "computed_field") or d.endswith(".setter") for d in fi.decorators)
 
-    def reachable(self, roots: List[FuncInfo]) -> List[FuncInfo]:
-        g = self.call_graph()
+    def conservative_graph(self) -> nx.DiGraph:
+        """call_graph plus by-name edges for method calls on receivers of unknown type: `<expr>.m(...)` is linked to every
+        repository method named m when m is not a ubiquitous container/pandas method name (over-approximation for inventories)."""
+        if getattr(self, "_cgc", None) is not None:
+            return self._cgc
+        g = self.call_graph().copy()
+        by_name: Dict[str, List[FuncInfo]] = {}
+        for fi in self.repo.all_functions():
+            if fi.cls is not None and fi.parent_func is None:
+                by_name.setdefault(fi.name, []).append(fi)
+        COMMON = {"get", "append", "copy", "items", "keys", "values", "update", "pop", "add", "index", "count", "sort", "join", "split",
+                  "format", "mean", "sum", "min", "max", "astype", "reshape", "replace", "json", "warn", "plot", "transform", "to_dict", "to_json"}
+        for fi in list(self.repo.all_functions()):
+            lt = self.local_types(fi)
+            for c in calls_in(fi.node):
+                if isinstance(c.func, ast.Attribute) and not self.resolve_call(fi, c, lt):
+                    nm = c.func.attr
+                    if nm in by_name and nm not in COMMON and len(by_name[nm]) <= 8:
+                        recv = c.func.value
+                        if isinstance(recv, ast.Name) and recv.id in ("np", "pd", "sp", "os", "json", "math", "warnings", "nlopt", "scipy"):
+                            continue
+                        for t in by_name[nm]:
+                            g.add_edge(fi.key, t.key, kind="by-name")
+                # X(...).m()
+                if isinstance(c.func, ast.Attribute) and isinstance(c.func.value, ast.Call):
+                    r = self.resolve_call(fi, c.func.value, lt)
+                    for t in r:
+                        if isinstance(t, FuncInfo) and t.cls is not None and t.name == "__init__":
+                            m = self.find_method(t.cls, c.func.attr)
+                            if m is not None:
+                                g.add_edge(fi.key, m.key)
+        self._cgc = g
+        return g
+
+    def reachable(self, roots: List[FuncInfo], conservative: bool = False) -> List[FuncInfo]:
+        g = self.conservative_graph() if conservative else self.call_graph()
         seen: Set[str] = set()
         stack = [r.key for r in roots]
         while stack:
